@@ -1,46 +1,256 @@
 (** C04 — property theorems (statements closed by [exact]). *)
-From Coq Require Import ZArith QArith List Bool.
-From KV Require Import Base.Outcome Base.Num C04.Model C04.ProofsTransport.
+From Coq Require Import ZArith QArith Qround List Bool.
+From Flocq Require Import IEEE754.BinarySingleNaN.
+From KV Require Import Base.IEEE Base.Outcome Base.Num C04.Model.
+From KV Require Import C04.ProofsTransport C04.ProofsInterp C04.ProofsSound C04.ProofsSeq C04.ProofsResample.
 Import ListNotations.
 Local Open Scope Z_scope.
 
-(** Under the guard (start inside the sound, loop region [0 <= ls < le <= N]) every history of
-    increments, decrements, seeks and [set_loop_region]s with well-formed regions runs to the
-    end: no panic, no hang (each loop ends within [fuel] iterations for any bound above the
-    length and the seek targets), and while [playing] the position is inside the sound. *)
+(** For ANY start position, ANY requested loop regions (empty and inverted ones included: they
+    are ignored), every history of increments, decrements, seeks and [set_loop_region]s runs to
+    the end: no panic, no hang.  [B] is any bound on the length, the start and the loop ends;
+    each loop of the transport ends within [fuel] iterations for any [fuel] above [B] and the
+    seek targets. *)
 Theorem transport_safe :
-  forall (fuel : nat) (N start : Z) (lr : option (Z * Z)) (reverse : bool) (ops : list top),
-    0 <= start -> start < N -> N < u64_max -> N < Z.of_nat fuel -> wf_loop N lr ->
-    Forall (wf_top N fuel) ops ->
-    exists t t', transport_new start lr reverse N = Ok t /\ trun fuel N t ops = Ok t' /\
-                 0 <= t_pos t' /\ (t_playing t' = true -> t_pos t' < N) /\ wf_loop N (t_loop t').
+  forall (fuel : nat) (N B start : Z) (lr : option (Z * Z)) (reverse : bool) (ops : list top),
+    0 <= start -> start < B -> N <= B -> B < u64_max -> B < Z.of_nat fuel -> req_loop B lr ->
+    Forall (wf_top B fuel) ops ->
+    exists t', trun fuel N (transport_new start lr reverse N) ops = Ok t' /\
+               0 <= t_pos t' /\ (t_playing t' = true -> t_pos t' < B) /\ wf_loop B (t_loop t').
 Proof. exact transport_safe_all. Qed.
 
-Theorem transport_safe_refuted_empty_region :
-  forall (fuel : nat) (p ls N : Z),
-    0 <= p -> p + 1 <= u64_max -> ls <= p + 1 ->
-    increment_position fuel {| t_pos := p; t_loop := Some (ls, ls); t_playing := true |} N = Hang.
-Proof. exact increment_empty_region_hangs. Qed.
+(** Under the property's guard (start inside the sound, loop regions not beyond it) a playing
+    transport is always inside the sound. *)
+Theorem transport_safe_guarded :
+  forall (fuel : nat) (N start : Z) (lr : option (Z * Z)) (reverse : bool) (ops : list top),
+    0 <= start -> start < N -> N < u64_max -> N < Z.of_nat fuel -> req_loop N lr ->
+    Forall (wf_top N fuel) ops ->
+    exists t', trun fuel N (transport_new start lr reverse N) ops = Ok t' /\
+               0 <= t_pos t' /\ (t_playing t' = true -> t_pos t' < N) /\ wf_loop N (t_loop t').
+Proof. exact ProofsTransport.transport_safe_guarded. Qed.
 
-Theorem transport_safe_refuted_empty_region_backward :
-  forall (fuel : nat) (p ls : Z),
-    0 <= p -> p <= ls -> ls <= u64_max ->
-    decrement_position fuel {| t_pos := p; t_loop := Some (ls, ls); t_playing := true |} = Hang.
-Proof. exact decrement_empty_region_hangs. Qed.
+(** The former failures, now positive: an empty or inverted region is ignored ... *)
+Theorem empty_or_inverted_region_ignored :
+  forall ls le : Z, le <= ls -> filter_region (Some (ls, le)) = None.
+Proof. exact filter_region_empty. Qed.
 
-Theorem transport_safe_refuted_inverted_region :
-  forall (fuel : nat) (p ls le N : Z),
-    0 <= p -> p + 1 <= u64_max -> le < ls -> le <= p + 1 ->
-    increment_position (S fuel) {| t_pos := p; t_loop := Some (ls, le); t_playing := true |} N = Panic Overflow.
-Proof. exact increment_inverted_region_panics. Qed.
+(** ... which is necessary: the wrap loop itself never ends on an empty region and underflows
+    on an inverted one ... *)
+Theorem wrap_loop_hangs_on_empty_region :
+  forall (fuel : nat) (p ls : Z), 0 <= p -> ls <= p -> wrap_down fuel p ls ls = Hang.
+Proof. exact wrap_down_empty_hangs. Qed.
 
-Theorem transport_safe_refuted_inverted_region_backward :
-  forall (fuel : nat) (p ls le : Z),
-    le < ls -> p <= ls ->
-    decrement_position (S fuel) {| t_pos := p; t_loop := Some (ls, le); t_playing := true |} = Panic Overflow.
-Proof. exact decrement_inverted_region_panics. Qed.
+Theorem wrap_loop_panics_on_inverted_region :
+  forall (fuel : nat) (p ls le : Z), le < ls -> le <= p -> wrap_down (S fuel) p ls le = Panic Overflow.
+Proof. exact wrap_down_inverted_panics. Qed.
 
-Theorem transport_safe_refuted_reverse_start_beyond_end :
+(** ... and a reversed sound whose start position is at or beyond its end plays nothing. *)
+Theorem reverse_start_beyond_end_plays_nothing :
   forall (start : Z) (lr : option (Z * Z)) (N : Z),
-    0 <= N -> N <= start -> transport_new start lr true N = Panic Overflow.
-Proof. exact transport_new_reverse_beyond_end_panics. Qed.
+    0 <= start -> N <= start ->
+    transport_new start lr true N = {| t_pos := 0; t_loop := filter_region lr; t_playing := false |}.
+Proof. exact transport_new_reverse_beyond_end. Qed.
+
+(** The only access to the source frames: at most one read per position update, at
+    [slice.start + position], inside the (clipped) slice and inside the audio — for ANY slice. *)
+Theorem reads_inside_slice :
+  forall (T : Type) (NT : Num T) (A : Type) (azero : A) (fuel : nat) (B : Z) (s : ssound T A),
+    SInv A fuel B s ->
+    push_frame_to_resampler A azero s =
+      Ok (set_rs A s (push_frame azero (s_rs s) (pushed A azero s) (t_pos (s_tr s)))) /\
+    (t_playing (s_tr s) = true -> t_pos (s_tr s) < NS A s ->
+       soff (s_slice s) <= soff (s_slice s) + t_pos (s_tr s) < send A (s_src s) (s_slice s) /\
+       send A (s_src s) (s_slice s) <= src_len (s_src s)).
+Proof. exact (fun T _ => @push_reads_inside T). Qed.
+
+(** [update_position] is exactly: that one read pushed into the window, one transport step in
+    the current direction, the Stopped rule; it cannot fail and keeps the invariant. *)
+Theorem update_position_exact :
+  forall (T : Type) (NT : Num T) (A : Type) (azero : A) (fuel : nat) (B : Z) (s : ssound T A),
+    SInv A fuel B s ->
+    exists t',
+      (if is_playing_backwards A s then decrement_position fuel (s_tr s)
+       else increment_position fuel (s_tr s) (NS A s)) = Ok t' /\
+      wf_transport B t' /\ t_loop t' = t_loop (s_tr s) /\
+      update_position A azero fuel s =
+        Ok (finish A (set_tr A (set_rs A s (push_frame azero (s_rs s) (pushed A azero s) (t_pos (s_tr s)))) t')) /\
+      SInv A fuel B (finish A (set_tr A (set_rs A s (push_frame azero (s_rs s) (pushed A azero s) (t_pos (s_tr s)))) t')).
+Proof. exact (@update_position_spec). Qed.
+
+(** Every history of position updates, seeks (to any index below the iteration bound) and loop
+    region changes (any region) keeps the invariant: no panic, no hang, reads inside the slice. *)
+Theorem sound_safe :
+  forall (T : Type) (NT : Num T) (A : Type) (azero : A) (fuel : nat) (B : Z)
+         (ops : list sop) (s : ssound T A),
+    SInv A fuel B s -> Forall (wf_sop fuel B) ops ->
+    exists s', srun A azero fuel s ops = Ok s' /\ SInv A fuel B s'.
+Proof. exact (@srun_safe). Qed.
+
+(** The played sequence, forward: the successor of [p] is [p + 1], wrapped from [le - 1]
+    straight to [ls] (a position at or after the loop end joins the loop at
+    [ls + (p + 1 - ls) mod (le - ls)]); the sound stops exactly when the successor leaves it. *)
+Theorem played_sequence_forward :
+  forall (fuel : nat) (N B : Z), B < u64_max -> B < Z.of_nat fuel ->
+  forall (p : Z) (lr : option (Z * Z)), 0 <= p -> p < B -> wf_loop B lr ->
+    increment_position fuel {| t_pos := p; t_loop := lr; t_playing := true |} N =
+      Ok {| t_pos := next_fwd lr p; t_loop := lr; t_playing := negb (next_fwd lr p >=? N) |}.
+Proof. exact increment_spec. Qed.
+
+Theorem played_sequence_loop_wrap :
+  forall ls le : Z, ls < le -> next_fwd (Some (ls, le)) (le - 1) = ls.
+Proof. exact next_fwd_wrap. Qed.
+
+Theorem played_sequence_stays_in_loop :
+  forall ls le p : Z, 0 <= ls -> ls < le -> 0 <= p -> next_fwd (Some (ls, le)) p < le.
+Proof. exact (next_fwd_in_loop O). Qed.
+
+(** Backward (reverse xor negative rate): [p - 1]; position 0 is the last frame; from the loop
+    start straight to [le - 1]. *)
+Theorem played_sequence_backward :
+  forall (fuel : nat) (B : Z), B < u64_max -> B < Z.of_nat fuel ->
+  forall (p : Z) (lr : option (Z * Z)), 0 <= p -> p < B -> wf_loop B lr ->
+    match lr with Some (ls, _) => ls < p | None => True end ->
+    decrement_position fuel {| t_pos := p; t_loop := lr; t_playing := true |} =
+      Ok (if p =? 0 then {| t_pos := 0; t_loop := lr; t_playing := false |}
+          else {| t_pos := p - 1; t_loop := lr; t_playing := true |}).
+Proof. exact decrement_spec_inside. Qed.
+
+Theorem played_sequence_backward_wrap :
+  forall (fuel : nat) (B : Z), B < u64_max -> B < Z.of_nat fuel ->
+  forall ls le : Z, 0 <= ls -> ls < le -> le <= B ->
+    decrement_position fuel {| t_pos := ls; t_loop := Some (ls, le); t_playing := true |} =
+      Ok {| t_pos := le - 1; t_loop := Some (ls, le); t_playing := true |}.
+Proof. exact decrement_spec_wrap. Qed.
+
+(** Without a loop, [k] updates from [start] reach [start + k]; the transport is playing
+    exactly while that is inside the sound: the last frame pushed is [N - 1]. *)
+Theorem played_sequence_end :
+  forall (fuel : nat) (N B : Z), N <= B -> B < u64_max -> B < Z.of_nat fuel ->
+  forall (k : nat) (start : Z), 0 <= start -> start + Z.of_nat k <= N ->
+    trun fuel N {| t_pos := start; t_loop := None; t_playing := true |} (repeat TInc k) =
+      Ok {| t_pos := start + Z.of_nat k; t_loop := None;
+            t_playing := (Nat.eqb k 0) || (start + Z.of_nat k <? N) |}.
+Proof. exact straight_run. Qed.
+
+(** Unit increments (the increment evaluates to exactly 1 and the fraction is 0): exactly one
+    position update per output frame, the fraction stays 0, the output is the interpolation of
+    the window at fraction 0 scaled by the two unit amplitudes.  For any time type with the
+    four closed facts (binary64 and Q have them: [unit_facts]). *)
+Theorem rate1_one_update_per_frame :
+  forall (T : Type) (NT : Num T) (A : Type) (azero : A) (F : Type)
+         (interp : A -> A -> A -> A -> F -> A) (cast : T -> F) (ascale : A -> F -> A) (fone : F)
+         (fuel : nat) (B : Z),
+    nadd n0 n1 = n1 -> nleb n1 n1 = true -> nsub n1 n1 = n0 -> nleb n1 n0 = false ->
+    forall s : ssound T A, SInv A fuel B s -> s_fpos s = n0 -> (2 <= fuel)%nat ->
+    exists s', update_position A azero fuel s = Ok s' /\ SInv A fuel B s' /\ s_fpos s' = n0 /\
+      frame_step A azero F interp cast ascale fone fuel s n1 =
+        Ok (s', ascale (ascale (resampler_get interp (s_rs s) (cast n0)) fone) fone).
+Proof. exact (@frame_step_unit). Qed.
+
+Theorem unit_facts :
+  (@nadd f64 _ n0 n1 = n1 /\ @nleb f64 _ n1 n1 = true /\ @nsub f64 _ n1 n1 = n0 /\ @nleb f64 _ n1 n0 = false) /\
+  (@nadd Q _ n0 n1 = n1 /\ @nleb Q _ n1 n1 = true /\ @nsub Q _ n1 n1 = n0 /\ @nleb Q _ n1 n0 = false).
+Proof. exact (conj unit_facts_f64 unit_facts_Q). Qed.
+
+(** Interpolation at fraction 0, for any sample operations with the zero laws, if the three
+    coefficients are finite: the result is [current], exactly unless [current] is itself a
+    zero (then the result is a zero — its sign may differ). *)
+Theorem rate1_interp_zero_any :
+  forall (S : Type) (SO : SOps S) (fin isz : S -> Prop),
+    (forall x, isz x \/ ~ isz x) -> (forall x, isz x -> fin x) ->
+    (forall x z, fin x -> isz z -> isz (smul x z)) ->
+    (forall a x, isz a -> fin x -> ~ isz x -> sadd a x = x) ->
+    (forall a x, isz a -> isz x -> isz (sadd a x)) ->
+    forall p c n1 n2 z : S,
+      isz z -> fin c ->
+      fin (smul (ssub n1 p) k_half) ->
+      fin (ssub (sadd (ssub p (smul c k_2_5)) (smul n1 k_2)) (smul n2 k_half)) ->
+      fin (sadd (smul (ssub n2 p) k_half) (smul (ssub c n1) k_1_5)) ->
+      (~ isz c -> interp1 p c n1 n2 z = c) /\ (isz c -> isz (interp1 p c n1 n2 z)).
+Proof. exact (@interp1_at_zero). Qed.
+
+(** The same in binary32 (the zero laws hold there for all finite values): bit-for-bit. *)
+Theorem rate1_bit_exact_b32 :
+  forall (p c n1 n2 z : f32),
+    isz32 z -> fin32 c ->
+    fin32 (mul32 (sub32 n1 p) (dy32 1 (-1))) ->
+    fin32 (sub32 (add32 (sub32 p (mul32 c (dy32 5 (-1)))) (mul32 n1 (Z32 2))) (mul32 n2 (dy32 1 (-1)))) ->
+    fin32 (add32 (mul32 (sub32 n2 p) (dy32 1 (-1))) (mul32 (sub32 c n1) (dy32 3 (-1)))) ->
+    (~ isz32 c -> interp1 p c n1 n2 z = c) /\ (isz32 c -> isz32 (interp1 p c n1 n2 z)).
+Proof. exact interp1_at_zero_b32. Qed.
+
+(** the sign-of-zero caveat is real *)
+Theorem rate1_sign_of_zero_caveat :
+  let nz : f32 := B754_zero true in let pz : f32 := B754_zero false in
+  interp1 pz nz pz pz pz = pz.
+Proof. exact interp1_negzero_witness. Qed.
+
+Theorem unit_increment_standard_rates :
+  forallb is_unit standard_rates = true.
+Proof. exact unit_increment_standard. Qed.
+
+Theorem unit_increment_refuted_49 :
+  is_unit 49 = false.
+Proof. exact unit_increment_49. Qed.
+
+(** The interpolation polynomial (exact arithmetic): it passes through [current] at 0 and
+    [next_1] at 1, with the central-difference slopes of a Hermite spline. *)
+Theorem hermite_polynomial :
+  (forall p c n1 n2 x : Q,
+    interp1 p c n1 n2 x ==
+      c + ((n1 - p) * (1#2)) * x
+        + (p - c * (5#2) + n1 * 2 - n2 * (1#2)) * x * x
+        + ((n2 - p) * (1#2) + (c - n1) * (3#2)) * x * x * x)%Q.
+Proof. exact interp1_Q_poly. Qed.
+
+Theorem hermite_interpolates :
+  (forall p c n1 n2 : Q, interp1 p c n1 n2 0 == c /\ interp1 p c n1 n2 1 == n1)%Q.
+Proof. exact (fun p c n1 n2 => conj (interp1_Q_at_0 p c n1 n2) (interp1_Q_at_1 p c n1 n2)). Qed.
+
+Theorem hermite_slopes :
+  (forall p c n1 n2 : Q,
+    let c1 := (n1 - p) * (1#2) in
+    let c2 := p - c * (5#2) + n1 * 2 - n2 * (1#2) in
+    let c3 := (n2 - p) * (1#2) + (c - n1) * (3#2) in
+    c1 == (n1 - p) / 2 /\ c1 + 2 * c2 + 3 * c3 == (n2 - c) / 2)%Q.
+Proof. exact interp1_Q_slopes. Qed.
+
+Theorem hermite_reproduces_lines :
+  (forall a b x : Q, interp1 (a - b) a (a + b) (a + 2 * b) x == a + b * x)%Q.
+Proof. exact interp1_Q_linear. Qed.
+
+(** The resampling law (exact arithmetic): one output frame is the interpolation of the
+    current window at the current fraction; then exactly floor(fraction + increment) position
+    updates happen and the fractional part remains (so integer position + fraction accumulates
+    the increments exactly, and the fraction stays in [0, 1)). *)
+Theorem resample_law :
+  (forall (A : Type) (azero : A) (F : Type) (interp : A -> A -> A -> A -> F -> A) (cast : Q -> F)
+         (ascale : A -> F -> A) (fone : F) (fuel : nat) (B : Z) (s : ssound Q A) (inc : Q),
+    SInv A fuel B s -> 0 <= s_fpos s -> 0 <= inc -> (Qfloor (s_fpos s + inc) < Z.of_nat fuel)%Z ->
+    exists s1 s',
+      update_n A azero fuel (Z.to_nat (Qfloor (s_fpos s + inc))) (set_fpos A s (Qred (s_fpos s + inc))) = Ok s1 /\
+      frame_step A azero F interp cast ascale fone fuel s inc =
+        Ok (s', ascale (ascale (resampler_get interp (s_rs s) (cast (s_fpos s))) fone) fone) /\
+      SInv A fuel B s' /\ s' = set_fpos A s1 (s_fpos s') /\
+      s_fpos s' == s_fpos s + inc - inject_Z (Qfloor (s_fpos s + inc)) /\ 0 <= s_fpos s' /\ s_fpos s' < 1)%Q.
+Proof. exact frame_step_Q. Qed.
+
+(** Where [position()] and the seeks are measured from.  In a straight forward run the window
+    holds the three frames before the transport position; [position()] names slot 1 (the frame
+    being heard), one update moves both by one frame ... *)
+Theorem position_reports :
+  forall (T : Type) (NT : Num T) (A : Type) (azero : A) (fuel : nat) (B : Z) (s : ssound T A),
+    SInv A fuel B s -> straight A s -> t_pos (s_tr s) + 1 < NS A s ->
+    exists s', update_position A azero fuel s = Ok s' /\ SInv A fuel B s' /\ straight A s' /\
+               t_pos (s_tr s') = t_pos (s_tr s) + 1 /\
+               current_frame_index (s_rs s') = current_frame_index (s_rs s) + 1.
+Proof. exact (@straight_update). Qed.
+
+(** ... and [seek_by] measures from the transport position, exactly three frames ahead of the
+    frame [position()] names: this contradicts "within one frame" (known finding F19). *)
+Theorem seek_by_offset :
+  forall (T : Type) (NT : Num T) (A : Type) (s : ssound T A) (a : T),
+    straight A s ->
+    seek_by_index A s a =
+      ntoU64 (nmul (nadd (ndiv (nofZ (current_frame_index (s_rs s) + 3)) (nofZ (s_sr s))) a) (nofZ (s_sr s))).
+Proof. exact (@seek_by_from_push_position). Qed.
